@@ -68,6 +68,17 @@ static void run_t(const std::vector<std::string>& ops)
     else if (t[0] == "cpyd") { std::unique_ptr<AL> n(new AL(al)); alp.swap(n); has = false; }   // continue on the copy, source destroyed
     else if (t[0] == "cpya") { AL tmp; tmp.push_back(T(7)); tmp = al; AL& self = tmp; tmp = self;   // copy assignment incl. self-assignment
                                std::unique_ptr<AL> n(new AL); *n = tmp; alp.swap(n); has = false; }
+    else if (t[0] == "asgo" || t[0] == "asgm") {                  // PRE-EXISTING STATE: copy (asgo) / move (asgm) assignment onto a list that holds OTHER
+      // elements in another window: asgo:m:k:p = target gets m elements, (begin()+k).eraseToHere() if k >= 0, purge() if p; the history continues on the TARGET
+      std::unique_ptr<AL> n(new AL);
+      long m = c11::num(t[1]), k = c11::num(t[2]), p = c11::num(t[3]);
+      for (long j = 0; j < m; ++j) n->push_back(T((int) (-100 - j)));
+      if (k >= 0 && k < m) { typename AL::iterator it = n->begin(); it += k; it.eraseToHere(); }
+      if (p) n->purge();
+      if (t[0] == "asgo") *n = al; else { AL tmp(al); *n = std::move(tmp); }
+      if (n->size() != al.size()) flags += "!asgsize";
+      alp.swap(n); has = false;
+    }
     else if (t[0] == "er") {
       long k = c11::num(t[1]);
       if (has && (held - al.begin()) <= k) has = false;          // documented: iterators at or before are invalidated
